@@ -45,6 +45,14 @@ CHECKS = {
    technique="TLA+ spec Rescale.tla (switch-to-rescaling logic over magnitude classes of the smallest site likelihood, single and batched, all histories) model-checked with TLC; real evaluation histories recorded on one model object and validated by TraceRescale.tla (total validation); size sweep against an extended-range log-space pruning reference",
    text="TLC checks Accurate / FiniteIfTrue / Sticky over all histories of 4 evaluations (single or batched mixtures of normal / subnormal / zero classes) for the switching policy the code follows (and flags the pinned-commit policy as a control); real TreeLikelihoodModels on 600-tip trees are driven through every class history of length <= 3 plus batched mixtures before and after the switch (tip partials and tip states), each event validated by TLC; a size sweep (8..800 tips, thorough ..1200; caterpillar / balanced / random; through both subnormal bands) compares every value at 1e-8 with the log-space reference.",
    note="Reference = float64 log-space pruning with the implementation's own transition matrices (only range handling differs); float64 only; classes are measured by the reference, not assumed."),
+ "C06": dict(level="model_checking", design="4/C06",
+   technique="TLA+ spec NodeHeights.tla (exact rationals; ratio and shift parameterisations on every ordered labelled tree x date vector x lattice parameters: valid time tree, inverse, Jacobian determinant) model-checked with TLC; emitted cases replayed exactly into real ReparameterizedTimeTreeModels (heights, branch lengths, transform, inverse, batches, device / dtype moves, in-place update histories)",
+   text="TLC checks validity (tips at sampling heights, parent >= child, branch = parent - child), inverse(forward(x)) = x and the Jacobian determinant for every ordered labelled tree of 3 and 4 taxa (5 thorough), all date vectors of the lattice under both date conventions, and lattice parameters (64k states quick); >11k emitted cases are built from JSON and compared exactly; batched parameter sets [B] against slices including the batched inverse; cpu()/to(float32)/to(float64) must keep the parameterisation and the heights; in-place parameter updates followed by the notification must be followed by heights, branch lengths and the inverse.",
+   note="Exactness relies on dyadic lattice values; n >= 5 only in the thorough tier and through C07's transliteration; no GPU (cuda() not exercised)."),
+ "C07": dict(level="exploration", design="4/C07",
+   technique="TLA+ specs NodeHeights.tla (Leibniz-expanded Jacobian determinant = closed form, exact) and Transforms.tla (composition rule for diagonal / cumulative patterns) model-checked with TLC; emitted exact determinants and the rule compared with the real transforms' log_abs_det_jacobian, inverse, model call and TransformedParameter call; autodiff Jacobian as the property's yardstick; validated transliteration for random trees of 5-12 taxa",
+   text="For every emitted tree case the reported log-Jacobian and ReparameterizedTimeTreeModel() must be the log of the exact determinant (1e-12), single, batched, after parameter updates and after in-place updates; random heterochronous trees of 5..9 (thorough 12) taxa go through the transliteration validated against TLC; CumSum, CumSumExp, SoftPlus, CumSumSoftPlus, Log, log-rate-difference, Exp, Sigmoid, Affine, StickBreaking are compared at lattice and random points with the autodiff Jacobian (1e-9) and the closed form of the spec's rule, inverse(forward(x)) = x, and TransformedParameter() must return the log-Jacobian of its current value.",
+   note="The TLA+ part proves the determinant structure exactly; exp / log / softplus leaves are numeric (autodiff in float64 is the yardstick named by the property). Transforms without both an inverse and a log-Jacobian are listed in the evidence as not invertible as shipped and not judged."),
 }
 
 PENDING = {}
